@@ -49,7 +49,7 @@ REQUIRED = ["transform_calls", "rotations_checked", "scales_checked", "translati
             "classmethod_checked", "translate_origin_checked", "singular_scalings", "tap_apply",
             "edited_in_place_then_transformed", "integer_matrices",
             "builder_results_edited_then_rebuilt"]
-FLOOR = {"quick": 1200, "thorough": 25000}
+FLOOR = {"quick": 1200, "thorough": 150000}
 SHARDS = {"quick": 8, "thorough": 16}
 TOL = 3e-5
 
@@ -442,7 +442,7 @@ def run(ctx):
     rng = ctx.rng
     tap = probes.CallTap({"apply": AffineTransform.apply})
     with tap:
-        for k in range(ctx.scale(2200, 44000)):
+        for k in range(ctx.scale(2200, 264000)):
             if k % 25 == 0:
                 case = {"kind": "builders", "theta": float(rng.uniform(-7, 7)), "n": unit(rng),
                         "s": np.exp(rng.normal(0, 1, 3)).round(4).tolist(),
